@@ -122,6 +122,44 @@ struct ParserCheck
                            .str());
     }
 
+    // The other entry point: parse(std::vector<user_input>), the inputs built from the strings by user_input's checking
+    // constructor.  That constructor rejects a malformed dash token wherever it stands (it cannot know about `--`);
+    // for every other vector the outcome must be the reference's.
+    static Res vector_entry_reference(const Decl& D, const std::vector<std::string>& av, const Env& env)
+    {
+        for (auto& t : av)
+            if (lex(t).shape == Tok::MALFORMED)
+            {
+                Res r;
+                r.why = "malformed dash token (checking constructor of user_input)";
+                return r;
+            }
+        return refparse(D, av, env);
+    }
+    static std::string vector_entry_witness(const Decl& D, const std::vector<std::string>& av, const Env& env)
+    {
+        return mc::J().s("decl", D.str()).raw("declaration", decl_json(D)).l("argv", av).raw("env", env_json(env)).s("entry", "parse(std::vector<user_input>)").str();
+    }
+    mc::Desc describe_vector_entry(const Decl& D, const std::vector<std::string>& av, const Env& env) const
+    {
+        return mc::Desc{ vector_entry_witness(D, av, env), "vector-entry:" + class_seq(D, av) };
+    }
+    void run_vector_entry(const Decl& D, const std::vector<std::string>& av, const Env& env, mc::Report& rep, long idx) const
+    {
+        auto want = vector_entry_reference(D, av, env);
+        auto got = impl_vector_entry(D, av, env);
+        rep.count("executions");
+        rep.count("vector_entry_cases");
+        rep.transitions.insert(mc::hash("vec|" + D.str() + "|" + mc::jlist(av) + "|" + env_class(D, env)));
+        for (auto& d : compare(want, got))
+        {
+            if (!judged(d.clause))
+                continue;
+            rep.violation("vector-entry:" + d.clause, id + ":vector-entry:" + d.clause + ":" + class_seq(D, av),
+                          vector_entry_witness(D, av, env), "parse(std::vector<user_input>): " + d.detail, idx);
+        }
+    }
+
     // A second parse on the same parser object after an earlier one: the outcome of the second must still
     // agree with the reference for (D, av2, env2) alone.  `first` is parsed and its outcome ignored.
     void run_second(const Decl& D, const std::vector<std::string>& av1, const Env& env1,
@@ -282,6 +320,18 @@ struct ParserCheck
         {
             auto doc = js::load(path);
             const js::Value& w = doc.has("witness") ? doc.at("witness") : doc;
+            if (w.has("entry"))
+            {
+                Decl D = decl_from(w.at("declaration"));
+                mc::Report rep;
+                run_vector_entry(D, w.strings("argv"), env_from(w), rep, 0);
+                printf("replay %s through parse(std::vector<user_input>): %s\n", id.c_str(), mc::jlist(w.strings("argv")).c_str());
+                for (auto& v : rep.violations)
+                    printf("  FAILED clause: %s\n    %s\n", v.second.clause.c_str(), v.second.detail.c_str());
+                if (rep.violations.empty())
+                    printf("  the parse agrees with the reference\n");
+                return rep.violations.empty() ? 0 : 1;
+            }
             if (w.has("declared_before_first_use"))
             {
                 Decl D = decl_from(w.at("declaration"));
